@@ -300,6 +300,7 @@ class err_handler(object):
         if not self.seg_node_added and (self.cur_st_node is None or self.cur_st_node.is_closed()):
             # A segment between the envelope segments, outside of any transaction
             # set, can not be filed under a set: it is invalid interchange content
+            self._gs_content_error()
             self.isa_error('024', err_str)
             return
         if self.seg_node_added and self.cur_seg_node is not None \
@@ -319,6 +320,7 @@ class err_handler(object):
                 seg_node.add_error(err_cde, err_str, err_value)
                 logger.error('Line:%i SEG:%s - %s' % (st_node.cur_line_st, err_cde, err_str))
                 return
+            self._gs_content_error()
             self.isa_error('024', err_str)
             return
         try:
@@ -335,6 +337,15 @@ class err_handler(object):
         if err_value:
             sout += ' (%s)' % err_value
         logger.error(sout)
+
+    def _gs_content_error(self):
+        """
+        An error inside an open functional group that belongs to none of its
+        sets and has no group error code: the group can not be acknowledged
+        as accepted
+        """
+        if self.cur_gs_node is not None and not self.cur_gs_node.is_closed():
+            self.cur_gs_node.content_error = True
 
     def ele_error(self, err_cde, err_str, bad_value, refdes=None):
         """
@@ -708,6 +719,8 @@ class err_gs(err_node):
         #self.st_count_accept = self.st_count_recv - len(self.children) # AK904
 
     def _get_ack_code(self):
+        if getattr(self, 'content_error', False):
+            return 'R'
         for child in self.children:
             if child.get_error_count() > 0:
                 return 'R'
